@@ -76,6 +76,7 @@ class Oracle(object):
         self.fault_filter = None     # optional predicate(individual): may this call fail?
         self.return_array = False
         self.may_be_inf = False
+        self.fault_script = None
 
     def _congruent(self, prev_calls, vec, vals):
         ctx = self.ctx
@@ -90,7 +91,10 @@ class Oracle(object):
         vec = list(individual.vector)
         j = len(self.calls)
         fault = 'ok'
-        if self.faults and (self.max_faults is None or self.nfault < self.max_faults) and (
+        script = getattr(self, 'fault_script', None)
+        if script is not None:
+            fault = script[j] if j < len(script) else 'ok'          # scripted outcome per call (no solver choice)
+        elif self.faults and (self.max_faults is None or self.nfault < self.max_faults) and (
                 self.fault_filter is None or self.fault_filter(individual)):
             fault = FAULTS[ctx.choice('fault_call%d' % j, self.fault_kinds)]
         if fault != 'ok':
